@@ -449,6 +449,10 @@ PROPS = {
 }
 
 
+_BAD_VALUES = {'etag': '', 'content_range': (0,), 'last_modified': 'yesterday', 'expires': 'tomorrow', 'location': 87,
+               'content_location': 88, 'downloadable_as': 1234, 'viewable_as': 4321, 'vary': 5, 'cache_control': 7}
+
+
 def prop_value(prop, arg):
     """-> (object to assign, header value the docs promise)."""
     if prop in ('cache_control', 'vary'):
@@ -683,6 +687,32 @@ def apply_op(resp, model, op, where):
         resp.set_headers(arg)
         for n, v in pairs:
             h[lower(n)] = v
+    elif kind == 'set_headers_shared':
+        # ONE long-lived dict (a middleware's table of headers) that the application keeps editing and passes again
+        shared = model.__dict__.setdefault('shared', {})
+        for n, v in op[1]:
+            shared[n] = v
+        for n in op[2]:
+            shared.pop(n, None)
+        resp.set_headers(shared)
+        for n, v in shared.items():
+            h[lower(n)] = v
+    elif kind == 'prop_set_bad':
+        # a value the property's formatter cannot take: if the assignment raises, it must leave the map as it was
+        before = dict(resp.headers)
+        try:
+            setattr(resp, op[1], _BAD_VALUES[op[1]])
+        except Exception as e:  # noqa
+            if resp.headers != before:
+                raise Violation('failed_assignment_changed_headers', '%s: resp.%s = %r raised %s but the headers went %r -> %r'
+                                % (where, op[1], _BAD_VALUES[op[1]], type(e).__name__, before, resp.headers))
+        else:
+            # accepted after all (a more lenient formatter): follow the implementation for this one header
+            v = resp.get_header(PROPS[op[1]])
+            if v is None:
+                h.pop(PROPS[op[1]], None)
+            else:
+                h[PROPS[op[1]]] = v
     elif kind == 'prop_set':
         obj, exp = prop_value(op[1], op[2])
         setattr(resp, op[1], obj)
@@ -760,6 +790,9 @@ def history_info(steps):
             touch(lower(op[1]), op[1], k)
         elif k == 'set_headers':
             for p in op[2]:
+                touch(lower(p[0]), p[0], 'set_headers')
+        elif k == 'set_headers_shared':
+            for p in op[1]:
                 touch(lower(p[0]), p[0], 'set_headers')
         elif k.startswith('prop_'):
             touch(PROPS[op[1]], None, 'property')
@@ -916,6 +949,9 @@ _op = st.one_of(
     st.builds(lambda k, p: ['set_headers', k, p], st.sampled_from(['dict', 'list', 'iter', 'gen']), _pairs),
     _prop_set,
     _prop_set,
+    st.builds(lambda p: ['prop_set_bad', p], st.sampled_from(sorted(_BAD_VALUES))),
+    st.builds(lambda add, drop: ['set_headers_shared', add, drop], _pairs, st.lists(_hname, max_size=1)),
+    st.builds(lambda add, drop: ['set_headers_shared', add, drop], _pairs, st.lists(_hname, max_size=1)),
     st.builds(lambda p: ['prop_none', p], _prop),
     st.builds(lambda p: ['prop_del', p], _prop),
     st.builds(lambda p: ['prop_get', p], _prop),
